@@ -43,9 +43,10 @@ def run_many(jobs):
     out = {}
 
     def one(job):
-        key, prog, args = job
+        key, prog, args = job[:3]
+        env = job[3] if len(job) > 3 else None
         try:
-            return key, CLI.run_subprocess(prog, args, timeout=300)
+            return key, CLI.run_subprocess(prog, args, timeout=300, env=env)
         except Exception as e:  # timeout
             return key, (None, "", repr(e))
 
@@ -63,8 +64,7 @@ def process_case(draw):
     cores = sorted(set([1] + [draw(st.integers(2, 6)) for _ in range(2)]))
     return {"kind": "process", "spec": spec, "cores": cores, "perm": list(draw(st.permutations(range(n)))),
             "subset": sorted(draw(st.lists(st.integers(0, n - 1), min_size=1, max_size=n, unique=True))),
-            "seed": draw(st.sampled_from([0, 0, 1, 42]) if draw(st.booleans()) else st.integers(0, 10000)), "fault_locus": draw(st.integers(0, n - 1)), "fault_cores": draw(st.sampled_from([1, 2, 3])),
-            "program2": draw(st.sampled_from(["call", "call-pedigree"]))}
+            "seed": draw(st.sampled_from([0, 0, 1, 42]) if draw(st.booleans()) else st.integers(0, 10000)), "fault_locus": draw(st.integers(0, n - 1)), "fault_cores": draw(st.sampled_from([1, 2, 3]))}
 
 
 def write_bed(path, loci):
@@ -114,6 +114,8 @@ def check_process(ctx, case):
             fbase = ["--bam"] + fbams + ["--variants", paths["vcf"], "--reference", paths["fasta"], "--ploidy", 2] + mcmc
             for c in sorted({1, case["fault_cores"]}):
                 jobs.append((("assemble", "fault", c), "assemble", fbase + ["--targets", paths["bed"], "--cores", c]))
+        # separate runs of one command may see different string-hash seeds
+        jobs = [j + ({"PYTHONHASHSEED": str(1 + 7 * i)},) for i, j in enumerate(jobs)]
         res = run_many(jobs)
         ref_rc, ref_out, ref_err = res[("assemble", "cores", 1)]
         if ref_rc is None:
@@ -161,38 +163,48 @@ def check_process(ctx, case):
             if len(recs) != len(set(recs)):
                 problems.append(Problem("assemble:duplicate_lines", "%s printed a locus twice" % (key,)))
                 return problems
-        # ---------------- second program on the assemble output (records = loci)
-        prog2 = case["program2"]
+        # ---------------- call and call-pedigree on the assemble output (records = loci)
         hap = P.save_vcf(ref_out, os.path.join(wd, "haps.vcf"))
-        base2 = ["--bam"] + paths["bams"] + ["--haplotypes", hap, "--ploidy", 2] + mcmc
-        if prog2 == "call-pedigree":
-            ped = {s: [".", "."] for s in spec["samples"]}
-            if len(spec["samples"]) > 1:
-                ped[spec["samples"][1]] = [spec["samples"][0], "."]
-            base2 += ["--sample-parents", P.write_map(os.path.join(wd, "ped.txt"), ped)]
-        jobs2 = [((prog2, "cores", c), prog2, base2 + ["--cores", c]) for c in case["cores"]]
-        jobs2.append(((prog2, "repeat", 0), prog2, base2 + ["--cores", 1]))
+        jobs2 = []
+        for prog2 in ("call", "call-pedigree"):
+            base2 = ["--bam"] + paths["bams"] + ["--haplotypes", hap, "--ploidy", 2] + mcmc
+            if prog2 == "call-pedigree":
+                # pedigree with members that were not sequenced (no BAM): grandparents GA, GB, GC of the first sample
+                ped = {"GA": [".", "."], "GB": [".", "."], "GC": ["GA", "GB"]}
+                for s in spec["samples"]:
+                    ped[s] = [".", "."]
+                ped[spec["samples"][0]] = ["GC", "GB"]
+                if len(spec["samples"]) > 1:
+                    ped[spec["samples"][1]] = [spec["samples"][0], "."]
+                base2 += ["--sample-parents", P.write_map(os.path.join(wd, "ped.txt"), ped)]
+            for i, c in enumerate(case["cores"]):
+                jobs2.append(((prog2, "cores", c), prog2, base2 + ["--cores", c], {"PYTHONHASHSEED": str(3 + 11 * i)}))
+            jobs2.append(((prog2, "repeat", 0), prog2, base2 + ["--cores", 1], {"PYTHONHASHSEED": "97"}))
         res2 = run_many(jobs2)
-        rc1, out1, err1 = res2[(prog2, "cores", 1)]
-        if rc1 is None:
-            ctx.count("subprocess_timeout_inconclusive")
-            return problems
-        if rc1 != 0:
-            problems.append(Problem(prog2 + ":single_core_failed", "exit %s: %s" % (rc1, err1[-500:])))
-            return problems
-        h1, r1 = CLI.split_vcf(out1)
-        if len(r1) != n:
-            problems.append(Problem(prog2 + ":record_count", "%d records for %d haplotype records" % (len(r1), n)))
-            return problems
-        for key, (rc, out, err) in res2.items():
-            if rc is None:
+        for prog2 in ("call", "call-pedigree"):
+            rc1, out1, err1 = res2[(prog2, "cores", 1)]
+            if rc1 is None:
                 ctx.count("subprocess_timeout_inconclusive")
                 continue
-            h, r = CLI.split_vcf(out)
-            if rc != 0 or sorted(r) != sorted(r1) or strip_header(h) != strip_header(h1):
-                bad = sorted(set(r) ^ set(r1))[:2]
-                problems.append(Problem(prog2 + ":records_differ", "%s (exit %s): output differs from --cores 1 with the same inputs and seed: %s" % (key, rc, [b[:300] for b in bad])))
+            if rc1 != 0:
+                problems.append(Problem(prog2 + ":single_core_failed", "exit %s: %s" % (rc1, err1[-500:])))
                 return problems
+            h1, r1 = CLI.split_vcf(out1)
+            if len(r1) != n:
+                problems.append(Problem(prog2 + ":record_count", "%d records for %d haplotype records" % (len(r1), n)))
+                return problems
+            for key, (rc, out, err) in res2.items():
+                if key[0] != prog2:
+                    continue
+                if rc is None:
+                    ctx.count("subprocess_timeout_inconclusive")
+                    continue
+                h, r = CLI.split_vcf(out)
+                if rc != 0 or sorted(r) != sorted(r1) or strip_header(h) != strip_header(h1):
+                    bad = sorted(set(r) ^ set(r1))[:2]
+                    hdiff = [x for x in strip_header(h) if x not in strip_header(h1)][:1]
+                    problems.append(Problem(prog2 + ":records_differ", "%s (exit %s): output differs from --cores 1 with the same inputs and seed: %s %s" % (key, rc, [b[:300] for b in bad], [x[:200] for x in hdiff])))
+                    return problems
     finally:
         shutil.rmtree(wd, ignore_errors=True)
         ctx.record(case, len(case["cores"]) >= 2 and n >= 3, ["process", "n_loci=%d" % n] + (["fault_not_first"] if fault_pos > 0 else ["fault_first"]))
